@@ -60,6 +60,31 @@ SNAP_MAP = [
     (r"marginfi_type_crate\|.*\|(i80_from_i128_checked|scale_supplies|liq_to_col_ratio|col_to_liq_ratio)\|", ["C20"]),
     (r"marginfi_type_crate\|\|(milli_to_u32|centi_to_u32|basis_to_u32|u32_to_milli|u32_to_centi|u32_to_basis|make_points)\|", ["C18", "C13"]),
     (r"\|HealthCache\|set_(engine_ok|healthy|oracle_ok)\|", ["C04"]),
+    # round 5: further small helpers that rules knew by name only
+    (r"marginfi\|\|(validate_not_cpi_with_sysvar)\|marginfi::ix_utils", ["C10", "C11"]),
+    (r"marginfi\|\|(oracle_accounts_for_bank|fetch_asset_price_for_bank_low_bias|fetch_unbiased_price_for_bank)\|", ["C09"]),
+    (r"marginfi\|\|(calculate_pre_fee_spl_deposit_amount)\|", ["C03", "C07", "C19"]),
+    (r"marginfi\|\|is_(drift|kamino|solend|marginfi)_asset_tag\|", ["C16"]),
+    (r"marginfi\|\|(account_not_frozen_for_authority|is_signer_authorized)\|", ["C08"]),
+    (r"marginfi\|\|get_remaining_accounts_per_asset_tag\|", ["C09"]),
+    (r"\|BankAccountWithPriceFeed\|try_get_price_feed\|", ["C09"]),
+    (r"\|RiskEngine\|check_account_health\|", ["C04", "C05"]),
+    (r"\|RiskEngine\|new\|", ["C11"]),
+    (r"\|RiskEngine\|get_unbiased_price_for_bank\|", ["C09"]),
+    (r"\|BankAccountWrapper\|find\|", ["C16"]),
+    (r"\|Bank\|(configure_unfrozen_fields_only|override_emissions_flag)\|", ["C12"]),
+    (r"\|Bank\|deposit_spl_transfer\|", ["C01"]),
+    (r"\|Bank\|maybe_get_asset_weight_init_discount\|", ["C04"]),
+    (r"\|Bank\|update_bank_cache\|", ["C06"]),
+    (r"marginfi\|\|(load_price_update_v2_checked|parse_swb_ignore_alignment)\|", ["C09"]),
+    (r"\|(SwitchboardPullPriceFeed|PythPushOraclePriceFeed)\|(load_checked|get_price_of_type|get_price_and_confidence_of_type)\|", ["C09"]),
+    (r"(drift|kamino|solend)_mocks\|\w+\|is_stale\|", ["C20"]),
+    (r"solend_mocks\|\|(decimal_to_i80f48|get_solend_obligation_deposit_amount)\|", ["C20"]),
+    (r"\|MarginfiGroup\|(is_protocol_paused)\|", ["C14"]),
+    (r"\|Balance\|empty_deactivated\|", ["C02", "C16"]),
+    (r"marginfi\|\|calc_fee_rate\|", ["C06"]),
+    (r"marginfi\|\|assert_within_one_token\|", ["C20"]),
+    (r"\|(Drift|Kamino|Solend)ConfigCompact\|to_bank_config\|", ["C13"]),
     # venue CPI wrappers (which accounts a token transfer / venue call is wired to, which PDA signs) and flat-fee transfers
     (r"marginfi\|\w*\|cpi_\w+\|marginfi::instructions::(kamino|drift|solend)::", ["C08"]),
     (r"marginfi\|\w*\|(transfer_flat_fee|transfer_fee)\|marginfi::instructions::", ["C19"]),
@@ -97,6 +122,11 @@ def candidates(prog):
             yield fid, f
 
 
+def _has_loop(f):
+    succ = f.succ()
+    return any(b in f.reach_from(b) for b in range(len(f.blocks)) if not f.blocks[b]["t"].get("cleanup"))
+
+
 def build(prog):
     snap = {}
     for fid, f in candidates(prog):
@@ -104,7 +134,7 @@ def build(prog):
             sig = leaf_sig(prog, f)
         except Exception:
             continue
-        if sig and len(sig) <= 8 and sum(len(x) for x in sig) <= 1500:
+        if sig and len(sig) <= 8 and sum(len(x) for x in sig) <= 1500 and not _has_loop(f):
             snap.setdefault(fid, sig)
     return snap
 
